@@ -10,7 +10,7 @@ use passage_adapters::strategy::StrategyAdapter;
 pub use proxy_header::ParseConfig;
 use proxy_header::io::ProxiedStream;
 use std::net::{IpAddr, SocketAddr};
-use std::sync::Arc;
+use std::sync::{Arc, Mutex};
 use std::time::Duration;
 use tokio::io::AsyncWriteExt;
 use tokio::net::{TcpListener, TcpStream, ToSocketAddrs};
@@ -31,7 +31,7 @@ pub struct Listener<Stat, Disc, Filt, Stra, Auth, Loca> {
     authentication_adapter: Arc<Auth>,
     localization_adapter: Arc<Loca>,
     tracker: TaskTracker,
-    rate_limiter: Option<RateLimiter<IpAddr>>,
+    rate_limiter: Option<Arc<Mutex<RateLimiter<IpAddr>>>>,
     proxy_protocol: Option<ParseConfig>,
     connection_timeout: Duration,
     auth_secret: Option<Vec<u8>>,
@@ -74,7 +74,7 @@ where
     }
 
     pub fn with_rate_limiter(mut self, rate_limiter: Option<RateLimiter<IpAddr>>) -> Self {
-        self.rate_limiter = rate_limiter;
+        self.rate_limiter = rate_limiter.map(|rate_limiter| Arc::new(Mutex::new(rate_limiter)));
         self
     }
 
@@ -135,43 +135,8 @@ where
     async fn handle(&mut self, stream: TcpStream, addr: SocketAddr) {
         let connection_start = Instant::now();
 
-        let (mut stream, client_addr) = if let Some(proxy_config) = self.proxy_protocol {
-            match ProxiedStream::create_from_tokio(stream, proxy_config).await {
-                Ok(stream) => {
-                    let client_addr = stream
-                        .proxy_header()
-                        .proxied_address()
-                        .map(|address| address.source)
-                        .unwrap_or(addr);
-                    (stream, client_addr)
-                }
-                Err(e) => {
-                    debug!(
-                        cause = e.to_string(),
-                        addr = addr.to_string(),
-                        "failed to parse proxy protocol header, connection closed"
-                    );
-                    return;
-                }
-            }
-        } else {
-            (ProxiedStream::unproxied(stream), addr)
-        };
-        debug!(addr = %client_addr, "handling new connection");
-
-        // check rate limiter (use real client address)
-        if let Some(rate_limiter) = &mut self.rate_limiter
-            && !rate_limiter.enqueue(client_addr.ip())
-        {
-            info!(addr = client_addr.to_string(), "rate limited client");
-            metrics::request_duration::record(connection_start, "rejected");
-
-            if let Err(e) = stream.shutdown().await {
-                debug!(cause = e.to_string(), "failed to close a client connection");
-            }
-            return;
-        }
-
+        let proxy_protocol = self.proxy_protocol;
+        let rate_limiter = self.rate_limiter.clone();
         let connection_timeout = self.connection_timeout;
         let status_adapter = self.status_adapter.clone();
         let discovery_adapter = self.discovery_adapter.clone();
@@ -181,8 +146,61 @@ where
         let localization_adapter = self.localization_adapter.clone();
         let auth_secret = self.auth_secret.clone();
 
-        // create a new connection and run protocol
+        // handle the connection in its own task, a client that stalls (even before its proxy protocol
+        // header is complete) must not keep the listener from accepting other clients
         self.tracker.spawn(async move {
+            let (mut stream, client_addr) = if let Some(proxy_config) = proxy_protocol {
+                let proxied = timeout(
+                    connection_timeout,
+                    ProxiedStream::create_from_tokio(stream, proxy_config),
+                )
+                .await;
+                match proxied {
+                    Ok(Ok(stream)) => {
+                        let client_addr = stream
+                            .proxy_header()
+                            .proxied_address()
+                            .map(|address| address.source)
+                            .unwrap_or(addr);
+                        (stream, client_addr)
+                    }
+                    Ok(Err(e)) => {
+                        debug!(
+                            cause = e.to_string(),
+                            addr = addr.to_string(),
+                            "failed to parse proxy protocol header, connection closed"
+                        );
+                        return;
+                    }
+                    Err(_) => {
+                        debug!(
+                            addr = addr.to_string(),
+                            "timeout while waiting for proxy protocol header, connection closed"
+                        );
+                        return;
+                    }
+                }
+            } else {
+                (ProxiedStream::unproxied(stream), addr)
+            };
+            debug!(addr = %client_addr, "handling new connection");
+
+            // check rate limiter (use real client address)
+            let rate_limited = rate_limiter.is_some_and(|rate_limiter| {
+                let mut rate_limiter = rate_limiter.lock().expect("rate limiter lock poisoned");
+                !rate_limiter.enqueue(client_addr.ip())
+            });
+            if rate_limited {
+                info!(addr = client_addr.to_string(), "rate limited client");
+                metrics::request_duration::record(connection_start, "rejected");
+
+                if let Err(e) = stream.shutdown().await {
+                    debug!(cause = e.to_string(), "failed to close a client connection");
+                }
+                return;
+            }
+
+            // create a new connection and run protocol
             metrics::open_connections::inc();
             let mut connection = Connection::new(
                 &mut stream,
